@@ -37,7 +37,7 @@ pub fn prop() -> Prop {
         stub: &["transport", "glue", "verifier random source", "item-forging adversary"],
         independent: &["single-item VerifyingKey::verify as the reference semantics"],
         ref_sample: |_| 0,
-        required_probes: &["batch_all_valid_multi", "empty_batch_rejected", "invalid_wrong_message", "invalid_wrong_key", "invalid_altered_response", "invalid_altered_commitment", "cancel_pair_rejected", "batch_size_ge_32", "frost_signature_in_batch", "invalid_first_position", "invalid_last_position"],
+        required_probes: &["batch_all_valid_multi", "empty_batch_rejected", "invalid_wrong_message", "invalid_wrong_key", "invalid_altered_response", "invalid_altered_commitment", "cancel_pair_rejected", "batch_size_ge_32", "frost_signature_in_batch", "invalid_first_position", "invalid_last_position", "batch_size_ge_216"],
         prepare: None,
     }
 }
@@ -71,6 +71,8 @@ fn gen_c<C: Suite>(seed: u64, run: u64, _tier: Tier) -> Scenario {
         }
         _ => p.range(2, if slow { 10 } else { 24 }),
     };
+    // rare LARGE batches (2n+1 points in one multiscalar multiplication: 433+ points from 216 items)
+    let size = if !slow && p.chance(1, 40) { *p.pick(&[216u64, 256, 300, 500]) } else { size };
     s.extra = json!({"batch_size": size});
     s
 }
@@ -229,6 +231,9 @@ fn exec_c<C: Suite>(scen: &Scenario) -> Exec {
                 }
                 if s >= 32 {
                     rep.probe("batch_size_ge_32");
+                }
+                if s >= 216 {
+                    rep.probe("batch_size_ge_216");
                 }
             }
         }
